@@ -10,6 +10,13 @@ Check(r) ==
     [] r.op = "increment" -> r.out = Increment(r.a)
     [] r.op = "add"       -> r.out = Add(r.a, r.b) /\ r.bsame
     [] r.op = "sub"       -> r.out = Sub(r.a, r.b) /\ r.bsame
+    \* operands of 2^32 + 300 bytes, all zero except one byte (value 1 or 9) at the given position in x or y (-1: none); position
+    \* codes are only compared for order (x low / y high in the last case): the most significant differing byte decides
+    [] r.op = "huge" -> r.ret = (CASE r.fn = "is_zero" -> (IF r.xpos = -1 THEN 1 ELSE 0)
+                                   [] r.fn = "memcmp"  -> (IF r.xpos = -1 /\ r.ypos = -1 THEN 0 ELSE -1)
+                                   [] r.fn = "compare" -> (IF r.xpos = -1 /\ r.ypos = -1 THEN 0
+                                                           ELSE IF r.ypos = -1 THEN 1 ELSE IF r.xpos = -1 THEN -1
+                                                           ELSE IF r.xpos > r.ypos THEN 1 ELSE -1))
     [] r.op = "memzero"   -> r.out = Memzero(r.a, r.off, r.len)
 Bad == {i \in 1..Len(Recs) : ~Check(Recs[i])}
 ASSUME PrintT(<<"ORACLE", Len(Recs), ToJson(SetToSeq(Bad))>>)
